@@ -38,7 +38,7 @@ func init() {
 			"a writer that is not an announced feature of a connected peer (removed entity, unknown feature, stale connection object after a disconnect) may or may not get a result; only 'no effect, no notify, no event' is asserted for it",
 		},
 		Parts: []rig.Part{
-			{Name: "hist", Cases: func(t rig.Tier) int { return map[rig.Tier]int{rig.Quick: 1200, rig.Thorough: 60000}[t] }, Run: c03Case, Procs: 2},
+			{Name: "hist", Cases: func(t rig.Tier) int { return map[rig.Tier]int{rig.Quick: 4800, rig.Thorough: 60000}[t] }, Run: c03Case, Procs: 2},
 		},
 	})
 }
